@@ -683,8 +683,9 @@ class Process:
         if WINDOWS and self._name is not None:
             return self._name
         name = self._proc.name()
-        if POSIX and len(name) >= 15:
-            # On UNIX the name gets truncated to the first 15 characters.
+        if POSIX and len(os.fsencode(name)) >= 15:
+            # On UNIX the name gets truncated to the first 15 bytes
+            # (possibly in the middle of a multi-byte character).
             # If it matches the first part of the cmdline we return that
             # one instead because it's usually more explicative.
             # Examples are "gnome-keyring-d" vs. "gnome-keyring-daemon".
@@ -700,7 +701,9 @@ class Process:
             else:
                 if cmdline:
                     extended_name = os.path.basename(cmdline[0])
-                    if extended_name.startswith(name):
+                    if os.fsencode(extended_name).startswith(
+                        os.fsencode(name)
+                    ):
                         name = extended_name
         self._name = name
         self._proc._name = name
